@@ -4,6 +4,7 @@ from vlib.runner import Unit
 
 parts = [
   Raw("prelude/core.rs"),
+  Raw("prelude/be_lemmas.rs"),
   Raw("prelude/std.rs"),
   Raw("prelude/bytes.rs"),
   Raw("prelude/msg.rs"),
